@@ -5,17 +5,21 @@ go 1.20
 require (
 	github.com/Workiva/frugal/lib/go v0.0.0
 	github.com/apache/thrift v0.19.0
+	github.com/nats-io/nats-server/v2 v2.10.11
+	github.com/nats-io/nats.go v1.33.1
 	github.com/sirupsen/logrus v1.9.3
 )
 
 require (
 	github.com/go-stomp/stomp v2.1.4+incompatible // indirect
 	github.com/klauspost/compress v1.17.6 // indirect
-	github.com/nats-io/nats.go v1.33.1 // indirect
+	github.com/minio/highwayhash v1.0.2 // indirect
+	github.com/nats-io/jwt/v2 v2.5.3 // indirect
 	github.com/nats-io/nkeys v0.4.7 // indirect
 	github.com/nats-io/nuid v1.0.1 // indirect
 	golang.org/x/crypto v0.19.0 // indirect
 	golang.org/x/sys v0.17.0 // indirect
+	golang.org/x/time v0.5.0 // indirect
 )
 
 replace github.com/Workiva/frugal/lib/go => /repo/lib/go
